@@ -145,6 +145,8 @@ func ranges(cmin, cmax int16) map[string]fk.VRange {
 	}
 	if cmin > 0 {
 		m["below-and-in"] = fk.VRange{Min: 0, Max: cmin}
+		m["from-zero-to-max"] = fk.VRange{Min: 0, Max: cmax}
+		m["from-zero-higher-max"] = fk.VRange{Min: 0, Max: cmax + 3}
 	}
 	return m
 }
@@ -282,6 +284,9 @@ func TestCheck(t *testing.T) {
 			}
 		}
 	}
+
+	// B2. version negotiation: every Client operation x every position of the advertised range (negotiate_test.go)
+	versionNegotiation(s, t, thorough)
 
 	// C. cached, topic-filtered metadata equals the brokers' last answer
 	s.Begin("metadata-cache-filter")
